@@ -196,6 +196,18 @@ def _shape(self, e, k, depth=0):
             return _shape(self, e.args[0], 1 - k, depth + 1)
         if isinstance(e.func, ast.Attribute) and e.func.attr in ("copy", "conj", "astype", "conjugate") and nm is not None and nm.startswith("."):
             return _shape(self, e.func.value, k, depth + 1)
+        # explicit shapes: X.reshape(a, b) / X.reshape((a, b)) / np.reshape(X, (a, b)) / np.zeros((a, b)) ...
+        shp = None
+        if isinstance(e.func, ast.Attribute) and e.func.attr == "reshape" and nm is not None and nm.startswith("."):
+            shp = e.args[0].elts if len(e.args) == 1 and isinstance(e.args[0], (ast.Tuple, ast.List)) else list(e.args)
+        elif nm == "numpy.reshape" and len(e.args) == 2 and isinstance(e.args[1], (ast.Tuple, ast.List)):
+            shp = e.args[1].elts
+        elif nm in ("numpy.zeros", "numpy.ones", "numpy.empty", "numpy.full") and e.args and isinstance(e.args[0], (ast.Tuple, ast.List)):
+            shp = e.args[0].elts
+        if shp is not None and k < len(shp) and not any(isinstance(x, ast.Starred) for x in shp):
+            v = self.ev(shp[k])
+            if v is not None and not (v.is_const() and v.const() < 0):
+                return v
         return None
     if isinstance(e, ast.Subscript):
         v = e.value
